@@ -130,6 +130,9 @@ void Ruleset::prerun(OomdContext& context) {
   for (const auto& action : action_group_) {
     action->prerun(context);
   }
+  for (const auto& runnable : runnable_rulesets_) {
+    runnable.second->prerun(context);
+  }
 }
 
 uint32_t Ruleset::runOnce(OomdContext& context) {
